@@ -1,4 +1,5 @@
 import PC.Proofs.SupArms
+import PC.Proofs.SupTail
 import PC.Spec.SupSpec
 /-! C04 — project completion and exit code (supervisor model). -/
 namespace PC.Props.C04
@@ -7,6 +8,33 @@ open PC.Sup
 /-- `Run()` returns only when the wait group is empty (every process goroutine has finished). -/
 theorem run_waits_for_all (s : Sys) (u : Tid) (h : (s.thr u).pc = .runWg) :
     enabledThr s u = true ↔ s.wg = 0 := by simp [enabledThr, h]
+
+/-- **`Run()` returns only when everything has ended — every reachable state, every schedule.**
+    Whenever the thread that called `Run()` is able to pass the project wait group (after which
+    `Run()` returns), every process goroutine that was ever started has left its body (it is past its
+    deferred `wg.Done()`), and the instance of each is done. Proof: the wait group never undercounts
+    the goroutines that have not reached their `wg.Done()` (`reachF_wgInv`, a counting argument in
+    which every step pays for the process threads it creates or is a `gotoCleanup`), and a process
+    goroutine past its dependency and launch phases has ended its process (`reachF_tailDone`). -/
+theorem run_returns_only_when_all_done (g : Gran) (o : Bool) (cfgs : List Cfg) {s : Sys}
+    (hr : Reach (init g o cfgs) s) (u : Tid) (hp : (s.thr u).pc = .runWg) (hen : enabledThr s u = true)
+    (w : Tid) (hw : w < s.threads.length) (i : IId) (hk : (s.thr w).kind = .proc i) :
+    ((s.thr w).pc = .lockCleanup ∨ (s.thr w).pc = .finished) ∧ (s.inst i).done = true :=
+  run_passes_only_when_all_done g o cfgs hr.fine u hp hen w hw i hk
+
+/-- the project wait group covers the goroutines that have not reached their `wg.Done()` -/
+theorem waitgroup_covers_goroutines (g : Gran) (o : Bool) (cfgs : List Cfg) {s : Sys}
+    (hr : Reach (init g o cfgs) s) : openW s ≤ s.wg :=
+  (reachF_wgInv g o cfgs hr.fine).cnt
+
+/-- the premises are met: two processes, the second waiting for the first to complete; at the end
+    `Run()` may return, both goroutines have left their bodies and both instances are done -/
+example :
+    let s := (runTrace (init .coarse false [{}, { deps := [(0, .completed)] }])
+      [.call 0 .runMain, .run 0, .run 1, .run 2, .exit 0 0, .run 1, .run 2, .exit 1 0, .run 2]).1
+    (s.thr 0).pc = .runWg ∧ enabledThr s 0 = true ∧ (s.thr 1).kind = .proc 0 ∧ (s.thr 2).kind = .proc 1 ∧
+      (s.inst 0).done = true ∧ (s.inst 1).done = true := by
+  set_option maxRecDepth 8000 in decide
 
 /-- **Every wait primitive is released on every terminal path** (fix F5), in every reachable state
     of every project, for every schedule: an instance that is done has its readiness, log-ready and
